@@ -278,6 +278,14 @@ def main(tier):
                     fn = ('cmp', 'ref_cmp', 'partial_cmp', 'ref_partial_cmp')[i5 % 4]
                     sx = 1 if i5 % 3 else -1
                     tasks.append({'fn': fn, 'ga': ga, 'gb': gb, 'wx': wx, 'wy': wy, 'sx': sx, 'sy': sx})
+    # large scale differences at the narrowing-cast boundaries (a u8/u16/u32 cast of the difference would alias them to small
+    # ones); operands of one or two words can never be equal there, the ordering must follow the magnitudes
+    for g in sorted(set([46, 64, 100, 255, 256, 257, 258, 265, 275, 276, 300, 511, 512, 513, 531, 1000, 65535, 65536, 65537, 65555] + ([2 ** 20, 2 ** 32, 2 ** 32 + 1, 2 ** 32 + 19] if tier == 'thorough' else []))):
+        for (ga, gb) in ((g, 0), (0, g)):
+            for fn in ('eq', 'cmp', 'ref_cmp', 'ref_eq_ref'):
+                for (wx, wy) in ((1, 1), (2, 1), (1, 2)):
+                    for (sx, sy) in ((1, 1), (-1, -1)):
+                        tasks.append({'fn': fn, 'ga': ga, 'gb': gb, 'wx': wx, 'wy': wy, 'sx': sx, 'sy': sy})
     # scale differences that do not fit u64 / i64
     for fn in ('eq', 'cmp', 'ref_cmp', 'ref_eq_ref'):
         for (sa, sb) in [(2 ** 63 - 1, -2 ** 63), (-2 ** 63, 2 ** 63 - 1), (2 ** 63 - 1, -1), (-2, 2 ** 63 - 1), (2 ** 62, -2 ** 62)]:
@@ -291,7 +299,7 @@ def main(tier):
     for i in range(0, len(sc_all), 200):
         tasks.append({'kind': 'bits_bound', 'scales': sc_all[i:i + 200], 'wx': 0, 'wy': 0})
     rep.required_labels = {'eq:True', 'eq:False', 'cmp:Less', 'cmp:Equal', 'cmp:Greater', 'bit-length early-out'}
-    rep.bounds = {'magnitudes': '< 2^%d (every combination of 32-bit word counts 0..%d, words symbolic); quick adds ordering at 4-5 words (beyond u128) for gaps 1,3,19,20' % (32 * W, W), 'gaps': gaps,
+    rep.bounds = {'magnitudes': '< 2^%d (every combination of 32-bit word counts 0..%d, words symbolic); quick adds ordering at 4-5 words (beyond u128) for gaps 1,3,19,20' % (32 * W, W), 'gaps': gaps, 'large_gaps_for_1-2_word_operands': '46, 64, 100, 255..258, 265, 275, 276, 300, 511..513, 531, 1000, 65535..65537, 65555 (thorough: + 2^20, 2^32..)',
                   'scale_difference_overflow_cases': 'i64 extremes, concrete', 'bit_length_early_out': 'every scale difference 0..%d and 2^j-1, 2^j, 2^j+1 up to 2^40; bit lengths symbolic below 2^48' % SB, 's0': 'symbolic |s0| <= 2^60', 'entry points': list(FUNCS)}
     rep.assumptions = ['BigUint::bits / iter_u32_digits / to_radix_le / comparison contracts of num-bigint', 'count_decimal_digits_uint substituted by its contract (C18)',
                        'lt/le/gt/ge/max/min/sort are core default methods determined by cmp/partial_cmp']
